@@ -35,6 +35,9 @@ class Session:
         self.rpow_terms = []
         self.watches = []
         self.ghost = {}
+        self._int_solver = z3.Solver()
+        self._int_solver.set("timeout", 200)
+        self._decide_cache = {}
 
     def fresh(self, base, sort="Real"):
         k = self.counter.get(base, 0)
@@ -72,6 +75,9 @@ class Session:
         self.facts.append(f)
         for c in self._capture:
             c.append(f)
+        if self._int_solver is not None and _int_only(f):
+            self._int_solver.add(f)
+            self._decide_cache.clear()
 
     def assume(self, f):
         self.add_fact(f)
@@ -416,10 +422,78 @@ def implies(a, b):
     return z3.Implies(a, tz(b))
 
 
+_int_only_cache = {}
+
+
+def _int_only(f):
+    """formula over integer terms only (no reals, no uninterpreted functions): index arithmetic"""
+    i = f.get_id()
+    r = _int_only_cache.get(i)
+    if r is not None:
+        return r
+    ok = True
+    seen = set()
+    st = [f]
+    n = 0
+    while st:
+        e = st.pop()
+        if e.get_id() in seen:
+            continue
+        seen.add(e.get_id())
+        n += 1
+        if n > 400:
+            ok = False
+            break
+        if z3.is_quantifier(e):
+            ok = False
+            break
+        if z3.is_app(e):
+            if not z3.is_bool(e) and not e.sort() == z3.IntSort():
+                ok = False
+                break
+            if e.decl().kind() == z3.Z3_OP_UNINTERPRETED and e.num_args() > 0:
+                ok = False
+                break
+            st.extend(e.children())
+    _int_only_cache[i] = ok
+    _KEEP.append((f, None))
+    return ok
+
+
+def decide(c):
+    """True / False when the integer facts and path condition of the session entail c / not c
+    (index arithmetic only), else None.  Keeps slice guards out of the element terms."""
+    if isinstance(c, bool):
+        return c
+    if not _int_only(c):
+        return None
+    s = cur()
+    key = (c.get_id(), len(s.pc))
+    if key in s._decide_cache:
+        return s._decide_cache[key]
+    sol = s._int_solver
+    if sol is None:
+        return None
+    assum = [p for p in s.pc if _int_only(p)]
+    r = None
+    if sol.check(*(assum + [z3.Not(c)])) == z3.unsat:
+        r = True
+    elif sol.check(*(assum + [c])) == z3.unsat:
+        r = False
+    s._decide_cache[key] = r
+    _KEEP.append((c, None))
+    return r
+
+
 def ite(c, a, b):
     if c is True:
         return a
     if c is False:
+        return b
+    d = decide(c)
+    if d is True:
+        return a
+    if d is False:
         return b
     a, b = _num(a), _num(b)
     if not is_sym(a) and not is_sym(b) and a == b:
@@ -486,6 +560,8 @@ def oblige_safety(what, cond):
         return
     s = cur()
     if cond is True:
+        return
+    if cond is not False and decide(cond) is True:
         return
     fn = _safety_ctx[-1]
     k = s.counter.get(("safety", fn, what), 0)
